@@ -88,7 +88,33 @@ def _pair(rng, mode):
 MODES = ["inner", "inner", "boundary", "t1", "t2", "none"]
 
 
-def _valid_case(rng, force=None):
+def _scaled(x, k):
+    """multiply every time of a scalar / list / None by 2**k (exact in floats; the rational model sees the same numbers)"""
+    if x is None:
+        return None
+    if isinstance(x, list):
+        return [None if v is None else v * 2.0 ** k for v in x]
+    return x * 2.0 ** k
+
+
+def _scale_case(inp, k):
+    out = dict(inp, t1=_scaled(inp["t1"], k), t2=_scaled(inp["t2"], k))
+    if k:
+        out["scale_log2"] = k
+    return out
+
+
+def _tref(inp):
+    """smallest positive relaxation time of a case (time unit for solver checks), 1.0 if there is none"""
+    vals = []
+    for T in (inp.get("t1"), inp.get("t2")):
+        for v in (T if isinstance(T, list) else [T]):
+            if isinstance(v, (int, float)) and v > 0:
+                vals.append(float(v))
+    return min(vals) if vals else 1.0
+
+
+def _valid_case(rng, force=None, scale=None):
     n = rng.choice([1, 1, 2, 2, 3])
     dims = [rng.choice([2, 2, 3]) for _ in range(n)]
     shape = force or rng.choice(["scalar", "scalar", "list", "list", "mixed"])
@@ -109,7 +135,10 @@ def _valid_case(rng, force=None):
     targets = None
     if rng.random() < 0.2:
         targets = sorted(rng.sample(range(n), rng.randint(1, n)))
-    return dict(kind="relax", dims=dims, t1=t1, t2=t2, targets=targets)
+    out = dict(kind="relax", dims=dims, t1=t1, t2=t2, targets=targets)
+    if scale is None:
+        scale = rng.randint(-40, 40) if rng.random() < 0.35 else 0
+    return _scale_case(out, scale)
 
 
 def _malformed_case(rng):
@@ -149,7 +178,8 @@ def _malformed_case(rng):
         targets = [rng.randrange(n), n + rng.randint(0, 2)]
     else:
         t1, t2 = [bad] * n, [_dy(rng) for _ in range(n + 1)]
-    return dict(kind="relax", dims=dims, t1=t1, t2=t2, targets=targets, malformed=k)
+    out = dict(kind="relax", dims=dims, t1=t1, t2=t2, targets=targets, malformed=k)
+    return _scale_case(out, rng.randint(-40, 40) if rng.random() < 0.3 else 0)
 
 
 CORPUS_DIR = os.path.join(VERIF, "corpus", "C15")
@@ -193,11 +223,11 @@ def _impl_noise(inp):
                 d = dims[q]
                 a, nn = destroy(d).full(), num(d).full()
                 ca, cn = M[0, 1], M[1, 1]
-                if np.allclose(M, ca * a, atol=1e-12) and (abs(ca) > 0 or not np.any(M)):
+                if np.abs(M - ca * a).max() <= 1e-12 * abs(ca) and (abs(ca) > 0 or not np.any(M)):
                     kind, c = 0, ca
                     if not np.any(M):
                         return ("Odd", "zero collapse operator")
-                elif np.allclose(M, cn * nn, atol=1e-12):
+                elif np.abs(M - cn * nn).max() <= 1e-12 * abs(cn):
                     kind, c = 1, cn
                 else:
                     return ("Odd", "operator is not a multiple of destroy/num")
@@ -325,29 +355,40 @@ def _check_rates(inp, c_full, fail, rs, H=None, rates=None):
         if not np.all(np.isfinite(C)):
             fail("non-finite", "finite collapse operators", "a collapse operator contains inf/nan")
             return
+    # every tolerance is RELATIVE to the magnitude of the rates involved (relaxation times may be 1e-12 or 1e+12):
+    # rounding noise is ~1e-16 * (sum of all rates); a subsystem's own law is checked to 1e-9 of its own rates
+    gtot = sum(gp_ + gc_ for gp_, gc_ in rates)
+    if H is not None:
+        gtot += float(np.abs(H).max())
+    noise = 1e-13 * gtot * dim + 1e-300
     for trial in range(3):
         rho = _rand_rho(rs, dim, hermitian=(trial < 2))
         L = _lind(c_full, rho, H)
-        if abs(np.trace(L)) > 1e-9 * (1 + np.abs(L).max()):
+        lmax = float(np.abs(L).max())
+        if lmax > 10 * gtot * dim * float(np.abs(rho).max()) + 1e-300:
+            fail(f"|L(rho)| = {lmax:.6g}", f"<= {10 * gtot * dim:.6g}", "generator is larger than all specified rates together")
+        if abs(np.trace(L)) > 1e-9 * lmax + noise:
             fail(f"tr L(rho) = {np.trace(L)}", "0", "generator does not preserve the trace")
         Lh = _lind(c_full, rho.conj().T, H)
-        if not np.allclose(L.conj().T, Lh, atol=1e-9 * (1 + np.abs(L).max())):
+        if np.abs(L.conj().T - Lh).max() > 1e-9 * lmax + noise:
             fail("L(rho)^dag != L(rho^dag)", "equal", "generator does not preserve hermiticity")
         for q in range(n):
             g_pop, g_coh = rates[q]
+            tol = 1e-9 * max(g_pop, g_coh) + noise
             d = dims[q]
             a_q = _embed(_a(d), q, dims)
             n_q = a_q.conj().T @ a_q
             for name, op, g in (("<n>", n_q, g_pop), ("<a>", a_q, g_coh)):
                 lhs = np.trace(op @ L)
                 rhs = -g * np.trace(op @ rho)
-                if abs(lhs - rhs) > 1e-9 * (1 + abs(rhs)):
+                if abs(lhs - rhs) > tol * (1 + float(np.abs(rho).max()) * d):
                     fail(f"d{name}/dt = {lhs:.12g} on subsystem {q}", f"{rhs:.12g} (rate {g:.12g})",
                          f"decay rate of {name} on subsystem {q} is not the specified one")
             # reduced state of subsystem q evolves on its own: entries for d = 2
             if d == 2:
                 r_q, L_q = _ptrace_keep(rho, q, dims), _ptrace_keep(L, q, dims)
-                if abs(L_q[1, 1] + g_pop * r_q[1, 1]) > 1e-9 or abs(L_q[0, 1] + g_coh * r_q[0, 1]) > 1e-9:
+                rmax = 1 + float(np.abs(r_q).max())
+                if abs(L_q[1, 1] + g_pop * r_q[1, 1]) > tol * rmax or abs(L_q[0, 1] + g_coh * r_q[0, 1]) > tol * rmax:
                     fail(f"reduced generator ({L_q[1,1]:.9g}, {L_q[0,1]:.9g})",
                          f"({-g_pop * r_q[1,1]:.9g}, {-g_coh * r_q[0,1]:.9g})", f"rho_11/rho_01 of qubit {q} do not decay at 1/t1, 1/t2")
     # three-level subsystems: a state inside the qubit subspace stays there and follows the two-level law
@@ -359,9 +400,10 @@ def _check_rates(inp, c_full, fail, rs, H=None, rates=None):
         rho = rho / np.trace(rho)
         L = _lind(c_full, rho, H)
         g_pop, g_coh = rates[q]
+        tol = 2 * (1e-9 * max(g_pop, g_coh) + noise)
         r_q, L_q = _ptrace_keep(rho, q, dims), _ptrace_keep(L, q, dims)
-        if (abs(L_q[1, 1] + g_pop * r_q[1, 1]) > 1e-9 or abs(L_q[0, 1] + g_coh * r_q[0, 1]) > 1e-9
-                or np.abs(L_q[2, :]).max() > 1e-9 or np.abs(L_q[:, 2]).max() > 1e-9):
+        if (abs(L_q[1, 1] + g_pop * r_q[1, 1]) > tol or abs(L_q[0, 1] + g_coh * r_q[0, 1]) > tol
+                or np.abs(L_q[2, :]).max() > tol or np.abs(L_q[:, 2]).max() > tol):
             fail("three-level reduced generator deviates", "two-level law inside the qubit subspace, no leakage",
                  f"three-level subsystem {q}: qubit subspace law violated")
 
@@ -405,7 +447,7 @@ def _solve_closed_form(inp, evo, fail, rs):
         v = np.array([0.5, 0.5j, math.sqrt(0.5)])[:d] if d == 3 else np.array([0.6, 0.8j])
         kets.append(qutip.Qobj(v))
     psi = qutip.tensor(kets)
-    T = float(rs.choice([0.5, 2.0]))
+    T = float(rs.choice([0.5, 2.0])) * _tref(inp)
     res = qutip.mesolve(H, psi * psi.dag(), [0.0, T / 2, T], c_ops=c_ops,
                         options={"atol": 1e-11, "rtol": 1e-10, "progress_bar": False, "nsteps": 100000})
     for k, tt in ((1, T / 2), (2, T)):
@@ -436,7 +478,7 @@ def _solve_check(inp, evo, fail, rs):
         kets.append(qutip.Qobj(v))
     psi = qutip.tensor(kets)
     rho0 = psi * psi.dag()
-    T = float(rs.choice([0.25, 1.0, 3.0]))
+    T = float(rs.choice([0.25, 1.0, 3.0])) * _tref(inp)
     tl = np.linspace(0, T, 5)
     res = qutip.mesolve(H, rho0, tl, c_ops=c_ops, options={"atol": 1e-10, "rtol": 1e-9, "progress_bar": False})
     for st in res.states:
@@ -513,9 +555,11 @@ def _oracle(inp, corr_fail, rs, solve=False, impl=None):
 # one processor queried several times (the answer must not depend on the history of the object)
 # ------------------------------------------------------------------------------------------------
 def _history_case(rng):
-    base = _valid_case(rng, force=rng.choice(["scalar", "scalar", "list"]))
+    base = _valid_case(rng, force=rng.choice(["scalar", "scalar", "list"]), scale=0)
     while _branch(base) == {"none"}:
-        base = _valid_case(rng, force=rng.choice(["scalar", "list"]))
+        base = _valid_case(rng, force=rng.choice(["scalar", "list"]), scale=0)
+    k = rng.randint(-40, 40) if rng.random() < 0.35 else 0
+    base = _scale_case(base, k)
     n = len(base["dims"])
     steps = []
     added = False
@@ -523,10 +567,10 @@ def _history_case(rng):
         if not added and rng.random() < 0.3:
             if rng.random() < 0.6:
                 tg = sorted(rng.sample(range(n), rng.randint(1, n)))
-                a = _dy(rng, 8, 64)
+                a = _dy(rng, 8, 64) * 2.0 ** k
                 steps.append(dict(op="add_relax", t1=a, t2=rng.choice([None, a, 2 * a]), targets=tg))
             else:
-                steps.append(dict(op="add_decoh", rate=rng.choice([0.25, 1.0, 4.0]), target=rng.randrange(n)))
+                steps.append(dict(op="add_decoh", rate=rng.choice([0.25, 1.0, 4.0]) * 2.0 ** (-k), target=rng.randrange(n)))
             added = True
         steps.append(dict(op=rng.choice(["qobjevo", "qobjevo", "noisy_pulses", "pulses_ideal"])))
     if sum(1 for st in steps if st["op"] in ("qobjevo", "noisy_pulses")) < 2:
@@ -626,7 +670,7 @@ def _check_history(inp, models, corr, rs, disagree=True):
             missing = 0
             for E in exp:
                 for j2, G in enumerate(got):
-                    if G.shape == E.shape and np.allclose(G, E, atol=1e-9):
+                    if G.shape == E.shape and np.abs(G - E).max() <= 1e-9 * np.abs(E).max():
                         got.pop(j2)
                         break
                 else:
@@ -885,7 +929,7 @@ def _compare(corr, inp, impl, model, pr):
     if model[0] == "Ok":
         a, b = impl[1], model[1]
         ok = len(a) == len(b) and all(x[0] == y[0] and x[1] == y[1] and x[2] == y[2]
-                                      and abs(x[3] - float(y[3])) <= 1e-9 * (1 + abs(float(y[3]))) for x, y in zip(a, b))
+                                      and abs(x[3] - float(y[3])) <= 1e-9 * abs(float(y[3])) for x, y in zip(a, b))
         if not ok:
             corr.disagree(inp, repr(a), repr([(q, k, s, float(r)) for q, k, s, r in b]), "collapse terms (qubit, kind, sign, rate) differ")
             return
@@ -910,7 +954,7 @@ def _compare(corr, inp, impl, model, pr):
             unmatched = []
             for E in exp:
                 for j, G in enumerate(got):
-                    if G.shape == E.shape and np.allclose(G, E, atol=1e-9):
+                    if G.shape == E.shape and np.abs(G - E).max() <= 1e-9 * np.abs(E).max():
                         got.pop(j)
                         break
                 else:
@@ -937,6 +981,14 @@ def correspond(ctx):
             t1, t2 = _pair(rng, mode)
             cases.append(dict(kind="relax", dims=d, t1=t1, t2=t2, targets=None))
             cases.append(dict(kind="relax", dims=d, t1=None if t1 is None else [t1] * len(d), t2=None if t2 is None else [t2] * len(d), targets=None))
+    # scale families: the same ratios t2/t1 at 2^k for k in -40..40 (relaxation times from ~1e-12 to ~1e+12)
+    ks = list(range(-40, 41, ctx.n(8, 2))) + [33, 37, 39]
+    for k in ks:
+        d = rng.choice([[2], [3], [2, 3], [3, 2], [2, 2, 3]])
+        t1 = _dy(rng)
+        r = rng.choice([1 / 16, 0.5, 1.0, 1.5, 31 / 16])          # t2 = r * t1  (strictly inside)
+        cases.append(_scale_case(dict(kind="relax", dims=d, t1=t1, t2=r * t1, targets=None), k))
+        cases.append(_scale_case(dict(kind="relax", dims=d, t1=[t1] * len(d), t2=[rng.choice([r, 1.0, 2.0]) * t1 for _ in d], targets=None), k))
     cases += [_valid_case(rng) for _ in range(nv)]
     cases += [_malformed_case(rng) for _ in range(nm)]
     for c in cases:
@@ -1012,6 +1064,11 @@ def search(ctx, broken):
     rs = np.random.RandomState(ctx.seed + 151)
     rng = ctx.rng
     cases = _corpus()
+    for k in (40, 30, 20, -20, -40, 35, 27, 10, -10, -30):       # extreme magnitudes first (absolute tolerances hide there)
+        for d in ([2], [3], [2, 3]):
+            for r in (1.0, 0.5, 1.5, 31 / 16):
+                cases.append(_scale_case(dict(kind="relax", dims=d, t1=1.0, t2=r, targets=None), k))
+                cases.append(_scale_case(dict(kind="relax", dims=d, t1=[1.0] * len(d), t2=[r] * len(d), targets=None), k))
     for d in ([2], [3], [2, 2], [2, 3], [3, 2, 2]):
         n = len(d)
         for t1 in (0.5, 1.0, 3.0):
